@@ -1,6 +1,9 @@
 /-
-  Executable model of `spydrnet/uniquify.py` (as repaired by docs/fixes/xform_uniquify_name_clash.diff:
-  the name counter is advanced until the candidate name is free in the library).
+  Executable model of `spydrnet/uniquify.py` (as repaired by docs/fixes/xform_uniquify_name_clash.diff
+  and docs/fixes/xform_uniquify_identifier_clash.diff: the name counter is advanced until the
+  candidate name AND the candidate `EDIF.identifier` (compared case-insensitively, as the EDIF naming
+  policy does) are free in the library; the identifier gets the suffix also when the definition has
+  no name).
 
   Transcription notes
   * `instance_queue` holds instances; an instance is addressed here by (parent definition index,
@@ -10,7 +13,7 @@
     wires with their value-level pin references, children with the same — still shared — references);
     `Definition.clone` registers the copied children in the reference sets of their references, which
     is what `refCount` computes from the table.  The copy is renamed `name ++ "_sdn_unique_" ++ N`
-    (only when the original has a name; the `EDIF.identifier` entry gets the same suffix), inserted
+    (the `EDIF.identifier` entry gets the same suffix), inserted
     at `index + 1` of the original's library and the instance is re-pointed to it
     (`Instance.reference` setter: connections are kept by port position, i.e. the pin references on
     the parent's wires are unchanged).
@@ -29,10 +32,20 @@ def uniqSuffix (n : Nat) : String := "_sdn_unique_" ++ toString n
 def Design.libNames (d : Design) (lib : Nat) : List String :=
   (List.range d.ndefs).filterMap (fun j => if (d.defs j).lib = lib then (d.defs j).name else none)
 
-/-- first counter value `k ≥ ctr` (trying at most `fuel` values) whose name is not taken -/
-def pickCtr (names : List String) (base : String) : (fuel ctr : Nat) → Option Nat
+/-- lower-cased `EDIF.identifier` entries of the definitions of library `lib` (the EDIF naming policy
+    compares identifiers of siblings case-insensitively) -/
+def Design.libEids (d : Design) (lib : Nat) : List String :=
+  (List.range d.ndefs).filterMap (fun j => if (d.defs j).lib = lib then (d.defs j).eid.map lowerStr else none)
+
+/-- candidate counter value `k` is unusable: the name or the (case-folded) identifier is taken -/
+def candTaken (names eids : List String) (nm eid : Option String) (k : Nat) : Bool :=
+  (match nm with | some n => names.contains (n ++ uniqSuffix k) | none => false) ||
+  (match eid with | some e => eids.contains (lowerStr (e ++ uniqSuffix k)) | none => false)
+
+/-- first counter value `k ≥ ctr` (trying at most `fuel` values) whose name and identifier are free -/
+def pickCtr (names eids : List String) (nm eid : Option String) : (fuel ctr : Nat) → Option Nat
   | 0, _ => none
-  | fuel + 1, ctr => if names.contains (base ++ uniqSuffix ctr) then pickCtr names base fuel (ctr + 1) else some ctr
+  | fuel + 1, ctr => if candTaken names eids nm eid ctr then pickCtr names eids nm eid fuel (ctr + 1) else some ctr
 
 /-- insert `y` right after the first occurrence of `x` -/
 def insertAfter (x y : Nat) : List Nat → List Nat
@@ -42,14 +55,14 @@ def insertAfter (x y : Nat) : List Nat → List Nat
 def setChildRef (D : Defn) (k r : Nat) : Defn :=
   { D with children := D.children.modify k (fun c => { c with ref := r }) }
 
-/-- the renamed copy and the counter after it -/
+/-- the renamed copy and the counter after it: name and `EDIF.identifier` (whichever are present) get
+    the same suffix `_sdn_unique_k` -/
 def cloneDefn (d : Design) (D : Defn) : Option (Defn × Nat) :=
-  match D.name with
-  | none => some (D, d.ctr)
-  | some n =>
-    match pickCtr (d.libNames D.lib) n (d.ndefs + 1) d.ctr with
+  if D.name.isNone && D.eid.isNone then some (D, d.ctr)
+  else
+    match pickCtr (d.libNames D.lib) (d.libEids D.lib) D.name D.eid (2 * d.ndefs + 1) d.ctr with
     | none => none
-    | some k => some ({ D with name := some (n ++ uniqSuffix k), eid := D.eid.map (· ++ uniqSuffix k) }, k + 1)
+    | some k => some ({ D with name := D.name.map (· ++ uniqSuffix k), eid := D.eid.map (· ++ uniqSuffix k) }, k + 1)
 
 /-- `_make_instance_unique` for child `k` of definition `q`, whose reference is `x`. -/
 def makeUnique (d : Design) (q k x : Nat) : Option Design :=
